@@ -11,4 +11,5 @@ INVARIANT Pure
 INVARIANT ManagerSingleAfterSolve
 INVARIANT KernelMatchesSetting
 INVARIANT NumbaFollowsSetting
+PROPERTY WisdomTolerant
 INVARIANT Emit
